@@ -717,6 +717,7 @@ class GraphBuilder(BuilderBase):
             graph = function.graph
         elif isinstance(function, onnxscript.OnnxFunction):
             graph = function.graph()
+            self._register_called_functions(function)
             function = function.function_ir
         else:
             raise TypeError("Function must be an ir.Function or onnxscript.OnnxFunction")
@@ -756,6 +757,20 @@ class GraphBuilder(BuilderBase):
             return ()
         return node.outputs if len(node.outputs) > 1 else node.outputs[0]
 
+    def _register_called_functions(self, function: onnxscript.OnnxFunction) -> None:
+        """Register the script functions that `function` calls (directly or not).
+
+        Whether `function` becomes a function node or is inlined, its body may contain
+        calls of other script functions: the model needs their definitions and has to
+        import their domains.
+        """
+        for callee in function.function_ir.get_called_functions().values():
+            callee_ir = callee.function_ir
+            self._root._functions[callee_ir.identifier()] = callee_ir
+            self._root._graph.opset_imports.setdefault(
+                callee_ir.domain, callee_ir.meta.get("opset_version", 1)
+            )
+
     def call_inline(
         self,
         function: ir.Function | onnxscript.OnnxFunction,
@@ -769,6 +784,7 @@ class GraphBuilder(BuilderBase):
         elif isinstance(function, onnxscript.OnnxFunction):
             # TODO(justinchuby): Reason about support for outer-scope values in inlined function bodies.
             graph = function.graph().clone(allow_outer_scope_values=True)
+            self._register_called_functions(function)
         else:
             raise TypeError("Function must be an ir.Function or onnxscript.OnnxFunction")
         if _outputs is not None:
